@@ -112,7 +112,7 @@ def unwrap(x):
         return type(x)(unwrap(e) for e in x)
     if isinstance(x, dict):
         return {k: unwrap(v) for k, v in x.items()}
-    if isinstance(x, NonzeroIdx):
+    if isinstance(x, (NonzeroIdx, LazyIdx)):
         raise _Symbolic()
     return x
 
@@ -243,6 +243,85 @@ def unop(x, fn_sym, fn_real, rdt=None):
 # ----------------------------------------------------------------------------------------------
 
 
+class LazyIdx(ndarray):
+    """numpy.where(cond)[0] for a symbolic 1-D condition without forking on every element: the length is the
+    symbolic count of true entries, element k is an ite-chain ("k-th true index"); only [0] is needed by the code."""
+    __array_ufunc__ = None
+
+    def __init__(self, cond):
+        self.cond = cond
+        self.dt = DTI
+        self._mat = None
+
+    def _terms(self):
+        return [ne0(e) for e in self.cond.a.reshape(-1)]
+
+    def __symlen__(self):
+        ts = self._terms()
+        tot = 0
+        for t in ts:
+            tot = tot + (core.R(t) if core.MODE['float'] == 'xr' else t)
+        if isinstance(tot, XR):
+            return core.cast(tot, DTI)
+        return tot
+
+    def __len__(self):
+        return len(self.materialise())
+
+    @property
+    def shape(self):
+        return (len(self),)
+
+    def first(self):
+        ts = self._terms()
+        r = None
+        for j in range(len(ts) - 1, -1, -1):
+            t = ts[j]
+            if r is None:
+                r = j
+            elif is_sym(t):
+                r = sel(t.t, j, r)
+            elif t:
+                r = j
+        return r
+
+    def __getitem__(self, k):
+        if isinstance(k, (int, rnp.integer)) and int(k) == 0:
+            n = self.__symlen__()
+            if is_sym(n):
+                if core.OPT['lazy_bounds']:
+                    core.lazy_assert((n > 0).t, 'IndexError: index 0 is out of bounds for axis 0 with size 0')
+                elif not bool(n > 0):
+                    raise IndexError('index 0 is out of bounds for axis 0 with size 0')
+            elif n == 0:
+                raise IndexError('index 0 is out of bounds for axis 0 with size 0')
+            return self.first()
+        return self.materialise()[k]
+
+    def materialise(self):
+        if self._mat is None:
+            n = self.__symlen__()
+            if is_sym(n) and core.check([(n > 0).t], 20000) == 'unsat':
+                self._mat = mk(rnp.zeros(0, dtype=rnp.int64))          # provably empty on this path
+            else:
+                m = self.cond.concretise_mask()
+                self._mat = mk(rnp.nonzero(m.reshape(-1))[0])
+        return self._mat
+
+    @property
+    def a(self):
+        return self.materialise().a
+
+    def astype(self, dt, **k):
+        return self.materialise().astype(dt, **k)
+
+    def tolist(self):
+        return self.materialise().tolist()
+
+    def __iter__(self):
+        return iter(self.materialise())
+
+
 class NonzeroIdx:
     """Lazy result of numpy.where(cond)/nonzero(cond) on a symbolic 1-D/N-D condition.
 
@@ -260,6 +339,8 @@ class NonzeroIdx:
         return self._mat
 
     def __getitem__(self, k):
+        if self._mat is None and self.cond.a.ndim == 1 and isinstance(k, (int, rnp.integer)) and int(k) == 0:
+            return LazyIdx(self.cond)
         return self.materialise()[k]
 
     def __iter__(self):
@@ -945,6 +1026,9 @@ def asarray(x, dtype=None, **kw):
         return x.astype(dtype)
     if isinstance(x, (SRec, SMasked)):
         return x
+    if isinstance(x, LazyIdx):
+        r = x.materialise()
+        return r if dtype is None else r.astype(dtype)
     if is_sym(x):
         a = rnp.empty((), dtype=object)
         a[()] = x
@@ -1099,7 +1183,7 @@ def _transc(name):
         e = _fl(e)
         if isinstance(e, XR):
             return {'log': core.xlog, 'log10': lambda a: core.xlog(a, 'log10'), 'log2': lambda a: core.xlog(a, 'log2'),
-                    'exp': core.xexp}[name](e)
+                    'exp': core.xexp, 'cos': lambda a: core.xuf('cos', a), 'sin': lambda a: core.xuf('sin', a)}[name](e)
         if isinstance(e, SFP):
             # bit-exact mode: transcendental functions are uninterpreted functions on doubles (their values never
             # enter a claim decided in this mode)
@@ -1122,6 +1206,8 @@ def _transc(name):
     return f
 
 
+cos = _transc('cos')
+sin = _transc('sin')
 log = _transc('log')
 log10 = _transc('log10')
 log2 = _transc('log2')
@@ -1614,6 +1700,19 @@ def stack(seq, axis=0):
     parts = [asarray(s) for s in seq]
     rdt = rnp.result_type(*[p.dt for p in parts])
     return mk(rnp.stack([_obj(p) for p in parts], axis=axis), rdt)
+
+
+def size(x, axis=None):
+    x = asarray(x)
+    return x.size if axis is None else x.shape[axis]
+
+
+def shape(x):
+    return asarray(x).shape
+
+
+def ndim(x):
+    return asarray(x).ndim
 
 
 def ravel(x, **k): return asarray(x).ravel(**k)
